@@ -4,22 +4,46 @@
    stall / compact condition-variable protocol) and Stall/Known.v (the known class).
 
    Reading of the property.  "While a flush thread and at least one compaction thread are
-   running" = runs of Proto.step from Proto.init without the transitions that end a compaction
-   thread (CDead never occurs on a well-formed tree without I/O errors: C20_selector_total).  A
-   stall in the sense of observe_at ("every store thread is parked and no wake-up is pending")
-   is Proto.all_parked.  The liveness claim is proved in its safety form:
-     - no wake-up is ever lost (C20_no_lost_wakeup_stall / _compact);
+   running" = runs of Proto.step from Proto.init in which at least one compaction thread has not
+   returned.  A compaction thread returns (CDead) when perform_compaction fails with an I/O
+   error - covered: the failing thread releases its compaction and, since 33fc9d3, wakes the
+   others - or when the selector does not return, which never happens on a well-formed tree
+   (C20_selector_total).  A stall in the sense of observe_at ("every store thread is parked and
+   no wake-up is pending") is Proto.all_parked: every compaction thread that has not returned is
+   parked, at least one is left, an ingest is parked, none is running.  The liveness claim for
+   INGEST is proved in its safety form:
+     - no wake-up is ever lost (C20_no_lost_wakeup_stall / _compact; before 33fc9d3 the second
+       was false: C20_no_lost_wakeup_compact_refuted_before_repair);
      - therefore the store is stuck exactly when should_stall_ingest holds, nothing is ongoing
-       and the selector returns nothing (C20_all_parked_is_unrelievable_stall), and that state is
-       permanent (C20_stall_is_forever);
+       and the selector hands out nothing (C20_all_parked_is_unrelievable_stall), and that state
+       is permanent (C20_stall_is_forever);
      - the selector returns something in every stalled state outside the class K-stall
        (C20_stall_relievable_outside_known), for every option setting; inside the class the
-       statement is false (C20_stall_relievable_refuted, C20_deadlock_reachable_in_known_class).
-     - and the store cannot compact forever instead: every compaction the selector picks lowers
-       a measure of the tree, so at most mu v select-and-apply steps fit between two ingests
-       (C20_compaction_lowers_measure, C20_compaction_runs_are_bounded; stated for one
-       compaction at a time: that a compaction selected on one version and applied to a later one,
-       after non-overlapping compactions of other threads, still lowers the measure is not proved).
+       statement is false (C20_stall_relievable_refuted, C20_deadlock_reachable_in_known_class);
+     - and the store cannot compact forever instead: every admissible compaction that takes a
+       file from above its upper level lowers a measure of the tree
+       (C20_admissible_compaction_lowers_measure, for the version it is applied to), every
+       compaction the selector picks is one (C20_compaction_lowers_measure), so at most mu v
+       select-and-apply steps fit between two ingests (C20_compaction_runs_are_bounded_sequential).
+       The run-level bound is SEQUENTIAL: with K >= 2 threads a compaction is selected on one
+       version and applied to a later one; C01_concurrent_apply_is_valid (Lsm) shows it is still
+       admissible there, but that it still holds an input above its upper level at that time
+       (true by conflict exclusion) is not proved, so a livelock of several threads is not
+       excluded by a theorem.
+   `sel_wfb (p_v s)` in theorem 1 is a hypothesis about the reached state, not an invariant of
+   Proto.steps (s_apply takes arbitrary outputs); the check asserts it after every applied
+   compaction of every real run, and C01_concurrent_invariant_reachable proves well-formedness
+   for the runs of C01's machine; the two machines are not composed here.
+   The clause "every put, delete, batch eventually returns" has no liveness theorem here: C06
+   proves the write path safe (Conc/Props_C06.v), C18 proves the hand-over of the wait list live
+   (C18_waitlist_handover, C18_queue_no_deadlock), for at most `slots` writers in flight nobody
+   blocks in link (Example wait_list_ring_has_room in Props_C06 says the ring has room); the
+   composition is not stated.  Known class `waitlist-full`: with more than MAX_CONCURRENCY = 65536
+   writers inside KeyValueStore::write the extra one sleeps in WaitList::link holding the store
+   mutex and every writer, reader and flush stops forever (the check demonstrates it on a 2-slot
+   ring through the hook sync42::verif::set_slots).  Observation, not a violation: puts never
+   wait on ingest (nothing waits on cnd_memtable_rolled_over), so while ingest is stalled the
+   memtable grows without back-pressure.
    Not proved here: fairness of the scheduler and of Mutex/Condvar (a runnable thread runs). *)
 From Coq Require Import NArith ZArith List Bool Arith.
 From Blue Require Import Gen.Const_Stall Lsm.Model Stall.Select Stall.Known Stall.Proto
@@ -29,30 +53,36 @@ Import ListNotations.
 Open Scope N_scope.
 
 (* 1. Outside the known class the store threads never all wait on one another: in every state
-      reachable from an open store, by every interleaving of client ingests, 1..K compaction
-      threads, spurious wake-ups and failing compactions, for every option setting. *)
+      reachable from an open store (`steps true` = the protocol after the repair 33fc9d3), by
+      every interleaving of client ingests, 1..K compaction threads, spurious wake-ups and
+      compactions that fail with an error (their thread returns; all_parked asks that every
+      compaction thread that has NOT returned is parked and that at least one is left, the
+      property's premise), for every option setting. *)
 Theorem C20_no_deadlock_outside_known : forall o v nc ni s,
-  steps o (init v nc ni) s -> sel_wfb (p_v s) = true -> known_stall o (p_v s) = false -> ~ all_parked s.
+  steps true o (init v nc ni) s -> sel_wfb (p_v s) = true -> known_stall o (p_v s) = false -> ~ all_parked s.
 Proof. exact no_deadlock_outside_known. Qed.
 
 (* 2. All store threads parked = ingest is stalled, nothing is ongoing, the selector has nothing. *)
 Theorem C20_all_parked_is_unrelievable_stall : forall o v nc ni s,
-  steps o (init v nc ni) s -> all_parked s ->
+  steps true o (init v nc ni) s -> all_parked s ->
   should_stall_ingest o (p_v s) = true /\ p_og s = [] /\
-  exists out, next_compaction o (p_v s) [] = Ok out /\ nc_choice out = None.
+  forall out c, next_compaction o (p_v s) [] = Ok out -> nc_choice out <> Some c.
 Proof. exact all_parked_is_unrelievable_stall. Qed.
 
 (* 3. No lost wake-up on `stall`: a thread inside stall.wait that has not been notified still
       has should_stall_ingest true (every applied compaction notifies; ingests only grow L0). *)
 Theorem C20_no_lost_wakeup_stall : forall o v nc ni s i f,
-  steps o (init v nc ni) s -> nth_error (p_i s) i = Some (IWait f) -> should_stall_ingest o (p_v s) = true.
+  steps true o (init v nc ni) s -> nth_error (p_i s) i = Some (IWait f) -> should_stall_ingest o (p_v s) = true.
 Proof. exact no_lost_wakeup_stall. Qed.
 
-(* 4. No lost wake-up on `compact`: when every compaction thread is inside compact.wait and none
-      has been notified, nothing is ongoing and next_compaction, asked now, returns None. *)
+(* 4. No lost wake-up on `compact`: when every compaction thread that has not returned is inside
+      compact.wait, none has been notified and at least one is left, nothing is ongoing and
+      next_compaction, asked now, hands out no compaction.  Every event that creates work wakes
+      the sleepers: an ingest, an applied compaction (its thread re-selects), and - since
+      33fc9d3 - a compaction released by a thread that failed. *)
 Theorem C20_no_lost_wakeup_compact : forall o v nc ni s,
-  steps o (init v nc ni) s -> all_compactors_parked s ->
-  p_og s = [] /\ exists out, next_compaction o (p_v s) [] = Ok out /\ nc_choice out = None.
+  steps true o (init v nc ni) s -> all_compactors_parked s ->
+  p_og s = [] /\ forall out c, next_compaction o (p_v s) [] = Ok out -> nc_choice out <> Some c.
 Proof. exact no_lost_wakeup_compact. Qed.
 
 (* 5. stall_relievable, outside the known class, for all usize option settings and all
@@ -102,32 +132,33 @@ Proof. vm_compute. repeat split. Qed.
 
 (* 6'. and the deadlock is reachable: one compaction thread, one ingest *)
 Theorem C20_deadlock_reachable_in_known_class :
-  exists s, steps ex_opts_c (init ex_tree_c 0 1) s /\ all_parked s.
+  exists s, steps true ex_opts_c (init ex_tree_c 0 1) s /\ all_parked s.
 Proof.
   set (f := ex_file 2 97 122 6 10).
   set (s0 := init ex_tree_c 0 1).
   set (s1 := mkP ex_tree_c [] [CWait] [IIdle]).
   set (s2 := mkP ex_tree_c [] [CWait] [ICheck f]).
   set (s3 := mkP ex_tree_c [] [CWait] [IWait f]).
-  assert (S1 : step ex_opts_c s0 s1).
+  assert (S1 : step true ex_opts_c s0 s1).
   { change s1 with (mkP (p_v s0) (p_og s0) (set_nth 0 CWait (p_c s0)) (p_i s0)).
-    apply (s_select_none ex_opts_c s0 0 (mkNC None false)); reflexivity. }
-  assert (S2 : step ex_opts_c s1 s2).
+    apply (s_select_none true ex_opts_c s0 0 (mkNC None false)); reflexivity. }
+  assert (S2 : step true ex_opts_c s1 s2).
   { change s2 with (mkP (p_v s1) (p_og s1) (p_c s1) (set_nth 0 (ICheck f) (p_i s1))).
-    apply (s_arrive ex_opts_c s1 0 f). reflexivity. }
-  assert (S3 : step ex_opts_c s2 s3).
+    apply (s_arrive true ex_opts_c s1 0 f). reflexivity. }
+  assert (S3 : step true ex_opts_c s2 s3).
   { change s3 with (mkP (p_v s2) (p_og s2) (p_c s2) (set_nth 0 (IWait f) (p_i s2))).
-    apply (s_ingest_wait ex_opts_c s2 0 f); reflexivity. }
+    apply (s_ingest_wait true ex_opts_c s2 0 f); reflexivity. }
   exists s3. split.
   - eapply steps_step; [eapply steps_step; [eapply steps_step; [apply steps_refl|exact S1]|exact S2]|exact S3].
   - repeat split.
-    + intros [|[|k]] p H; cbn in H; inversion H; reflexivity.
+    + intros [|[|k]] p H; cbn in H; inversion H; now left.
+    + exists O. reflexivity.
     + intros [|[|i]] p H; cbn in H; inversion H; right; eauto.
     + exists O, f. reflexivity.
 Qed.
 
 (* 7. A stuck state is permanent: the tree never changes again and no waiting ingest returns. *)
-Theorem C20_stall_is_forever : forall o s s', stuck o s -> steps o s s' ->
+Theorem C20_stall_is_forever : forall o s s', stuck o s -> steps true o s s' ->
   stuck o s' /\ p_v s' = p_v s /\
   (forall i, (exists f, nth_error (p_i s) i = Some (ICheck f) \/ nth_error (p_i s) i = Some (IWait f)) ->
              (exists f, nth_error (p_i s') i = Some (ICheck f) \/ nth_error (p_i s') i = Some (IWait f))).
@@ -175,10 +206,24 @@ Theorem C20_compaction_lowers_measure : forall o v og out c outs, sel_wfb v = tr
   (mu (apply_compaction v (cc c) outs) < mu v)%nat.
 Proof. exact compaction_step_lowers_mu. Qed.
 
-(* 15. Hence a run of n select-and-apply steps from v exists only for n <= mu v: between two
-       ingests the selector runs dry after finitely many compactions, it cannot keep a stalled
-       store busy forever. *)
-Theorem C20_compaction_runs_are_bounded : forall o n v v', crun o n v v' -> (n + mu v' <= mu v)%nat.
+(* 14'. The same for ANY admissible compaction on the version it is applied to (so also for one
+        that was selected on an earlier version and is still admissible, as C01's
+        C01_concurrent_apply_is_valid shows of every apply of its concurrent machine), provided
+        it takes at least one entry from a level above its upper level. *)
+Theorem C20_admissible_compaction_lowers_measure : forall v c outs,
+  valid_compactionb v c = true -> (ec outs <= in_entries v c)%nat ->
+  ec (concat (map (filter (is_input c)) (mids v c))) <> 0%nat ->
+  (mu (apply_compaction v c outs) < mu v)%nat.
+Proof.
+  intros v c outs V Ho Hn. unfold valid_compactionb in V.
+  do 5 (apply andb_prop in V; destruct V as [V _]).
+  destruct (vc_shape_facts v c V) as (Hlu & Hlen & _ & Hbb). now apply compaction_lowers_mu.
+Qed.
+
+(* 15. Hence a run of n select-and-apply steps from v, one compaction at a time, exists only for
+       n <= mu v: between two ingests a single compaction thread runs dry after finitely many
+       compactions.  (Sequential: see the header for K >= 2.) *)
+Theorem C20_compaction_runs_are_bounded_sequential : forall o n v v', crun o n v v' -> (n + mu v' <= mu v)%nat.
 Proof. exact crun_bounded. Qed.
 
 (* 13. The retyped float tables cover exactly NUM_LEVELS levels. *)
@@ -201,6 +246,59 @@ Example ex_stalled_is_relieved :
   | _ => false
   end = true.
 Proof. vm_compute. repeat split. Qed.
+
+(* 4'. Before the repair 33fc9d3 (`steps false`) statement 4 was false, outside the known class and
+       with a live compaction thread: default options, 12 files in L0 and 2 in L1, two compaction
+       threads.  Thread 0 selects the compaction that clears level 1; thread 1 finds only
+       candidates that conflict with it and parks on `compact`; the flush thread parks on `stall`;
+       thread 0's compaction fails with an I/O error, it releases the compaction and returns
+       WITHOUT notifying `compact`.  Now nothing is ongoing, next_compaction would hand out the
+       same compaction again, and the only thread that could take it sleeps forever.  (Replayed
+       on the real store with real threads before the repair, corpus/C20/08.) *)
+Definition ex_out1 : nc_out :=
+  match next_compaction ex_opts_default ex_tree_stalled [] with Ok x => x | _ => mkNC None false end.
+Definition ex_c1 : core :=
+  match nc_choice ex_out1 with Some c => c | None => mkCore (mkC 0 0 [] [] []) 0 end.
+
+Theorem C20_no_lost_wakeup_compact_refuted_before_repair :
+  exists s, steps false ex_opts_default (init ex_tree_stalled 1 1) s /\
+            all_parked s /\ sel_wfb (p_v s) = true /\ known_stall ex_opts_default (p_v s) = false /\
+            exists out c, next_compaction ex_opts_default (p_v s) [] = Ok out /\ nc_choice out = Some c.
+Proof.
+  set (o := ex_opts_default). set (v := ex_tree_stalled). set (f := ex_file 30 97 122 200 1000).
+  set (s0 := init v 1 1).
+  set (s1 := mkP v [(0%nat, cc ex_c1)] [CRun ex_c1; CSelect] [IIdle]).
+  set (s2 := mkP v [(0%nat, cc ex_c1)] [CRun ex_c1; CWait] [IIdle]).
+  set (s3 := mkP v [(0%nat, cc ex_c1)] [CRun ex_c1; CWait] [ICheck f]).
+  set (s4 := mkP v [(0%nat, cc ex_c1)] [CRun ex_c1; CWait] [IWait f]).
+  set (s5 := mkP v [] [CDead; CWait] [IWait f]).
+  assert (S1 : step false o s0 s1).
+  { change s1 with (mkP (p_v s0) (p_og s0 ++ [(0%nat, cc ex_c1)]) (set_nth 0 (CRun ex_c1) (p_c s0)) (p_i s0)).
+    apply (s_select_some false o s0 0 ex_out1 ex_c1); vm_compute; reflexivity. }
+  assert (S2 : step false o s1 s2).
+  { change s2 with (mkP (p_v s1) (p_og s1) (set_nth 1 CWait (p_c s1)) (p_i s1)).
+    apply (s_select_none false o s1 1 (mkNC None false)); vm_compute; reflexivity. }
+  assert (S3 : step false o s2 s3).
+  { change s3 with (mkP (p_v s2) (p_og s2) (p_c s2) (set_nth 0 (ICheck f) (p_i s2))).
+    apply (s_arrive false o s2 0 f). reflexivity. }
+  assert (S4 : step false o s3 s4).
+  { change s4 with (mkP (p_v s3) (p_og s3) (p_c s3) (set_nth 0 (IWait f) (p_i s3))).
+    apply (s_ingest_wait false o s3 0 f); vm_compute; reflexivity. }
+  assert (S5 : step false o s4 s5).
+  { change s5 with (mkP (p_v s4) (drop_thread 0 (p_og s4)) (if false then map wake_c (set_nth 0 CDead (p_c s4)) else set_nth 0 CDead (p_c s4)) (p_i s4)).
+    apply (s_fail false o s4 0 ex_c1). reflexivity. }
+  exists s5. split; [|split; [|split; [|split]]].
+  - eapply steps_step; [eapply steps_step; [eapply steps_step; [eapply steps_step; [eapply steps_step; [apply steps_refl|exact S1]|exact S2]|exact S3]|exact S4]|exact S5].
+  - repeat split.
+    + intros [|[|[|k]]] p H; cbn in H; inversion H; auto.
+    + exists 1%nat. reflexivity.
+    + intros [|[|i]] p H; cbn in H; inversion H; right; eauto.
+    + exists O, f. reflexivity.
+  - vm_compute. reflexivity.
+  - vm_compute. reflexivity.
+  - exists ex_out1, ex_c1. split; vm_compute; reflexivity.
+Qed.
+
 
 (* End to end with C01 (added by the coordinator): whatever the selector picks on a well-formed tree
    is a step the store's history theorem covers - a merging compaction changes no point read at
